@@ -1,7 +1,7 @@
 (* C11 judge: the frame-level prediction of the model and what the property demands of one observed
    decode / encode / validate / metadata / apply run. *)
 From Coq Require Import List Bool Arith NArith.
-From TP Require Import Model.Stbc.
+From TP Require Import Model.Stbc Model.StbcEnc.
 Import ListNotations.
 Open Scope N_scope.
 
@@ -22,6 +22,13 @@ Definition first_strtab (bs : list N) (f : frame) : option (list (list N)) :=
   | Some e => st_entries (dec_strtab true (slice bs (e_off e) (e_len e)))
   | None => None
   end.
+(* a container written by the real encoder is laid out as Model/StbcEnc.v lays it out *)
+Definition sects_of (bs : list N) (f : frame) : list sect :=
+  map (fun e => {| s_id := e_id e; s_flags := e_flags e; s_data := slice bs (e_off e) (e_len e) |}) (f_entries f).
+Definition entry_eqb (a b : entry) : bool := N.eqb (e_id a) (e_id b) && N.eqb (e_flags a) (e_flags b) && N.eqb (e_off a) (e_off b) && N.eqb (e_len a) (e_len b).
+Fixpoint entries_eqb (a b : list entry) : bool := match a, b with [], [] => true | x :: a', y :: b' => entry_eqb x y && entries_eqb a' b' | _, _ => false end.
+Definition encoder_layout_ok (bs : list N) (f : frame) : bool :=
+  entries_eqb (f_entries f) (layout (first_offset (N.of_nat (length (f_entries f)))) (sects_of bs f)).
 (* dec: 0 Ok, 1..9 frame errors, 10/11 section-level errors, 20 panic, 21 abort; reenc/valid/meta/apply: 0 ok 1 err 2 panic 3 n/a *)
 Definition judge (emitted : bool) (crc : N) (bs : list N) (dec : N) (secs : list (N * N)) (reenc valid meta apply : N)
                  (have_strs : bool) (strs : list (list N)) : bool :=
@@ -36,4 +43,6 @@ Definition judge (emitted : bool) (crc : N) (bs : list N) (dec : N) (secs : list
                && (if have_strs && N.leb 1 (f_minor f) then match first_strtab bs f with Some l => strs_eqb l strs | None => false end else true)
              else true)
      end
-  && (if emitted then N.eqb dec 0 && N.eqb reenc 1 && N.eqb valid 0 && N.eqb meta 0 else true).
+  && (if emitted then N.eqb dec 0 && N.eqb reenc 1 && N.eqb valid 0 && N.eqb meta 0
+                      && match dec_frame (fun _ => crc) bs with Ok f => encoder_layout_ok bs f | Err _ => false end
+      else true).
